@@ -457,6 +457,8 @@ def run(shard, ctx):
         rng = ctx.rng("comp")
         for ci in range(shard["n"]):
             c = Composition()
+            # a second live composition that gets tracks in between: what it selects is its own business (seed C14-11A)
+            other = Composition()
             model = []      # list of TrackModel
             tracks = []
             selected = []
@@ -488,6 +490,11 @@ def run(shard, ctx):
                         ctx.check("composition: adding a track is accepted", False, {"history": hist}, None, repr(rr))
                         ok = False
                         break
+                elif r < 0.5 and rng.random() < 0.5:
+                    other.add_track(Track())
+                    if rng.random() < 0.3:
+                        other.add_note("D")
+                    hist.append("another composition gets a track")
                 elif r < 0.4 and len(tracks) > 1:
                     selected = sorted(rng.sample(range(len(tracks)), rng.randint(1, len(tracks))))
                     c.selected_tracks = list(selected)
